@@ -2,7 +2,61 @@ package main
 
 // UTF-8 aware operations on symbolic strings.
 
-import "fmt"
+import (
+	"fmt"
+	"go/token"
+	"unicode/utf8"
+)
+
+// runeCount is len([]rune(s)) of a symbolic string, usable in comparisons
+// with small concrete numbers.
+type runeCount struct{ s *Term }
+
+// runesAtLeast decides whether s has at least n characters (forking).
+func (m *machine) runesAtLeast(s *Term, n int64) bool {
+	for i := int64(0); i < n; i++ {
+		if m.branch(mkStrEq(s, mkStr(""))) {
+			return false
+		}
+		_, rest := m.firstCharAny(s)
+		s = rest
+	}
+	return true
+}
+
+func (m *machine) runeCountCmp(op token.Token, rc *runeCount, other value, swapped bool) value {
+	k, ok := other.(int64)
+	if !ok || k < 0 || k > 8 {
+		panic(cut{"rune count compared with a symbolic or large number"})
+	}
+	if swapped {
+		switch op {
+		case token.LSS:
+			op = token.GTR
+		case token.LEQ:
+			op = token.GEQ
+		case token.GTR:
+			op = token.LSS
+		case token.GEQ:
+			op = token.LEQ
+		}
+	}
+	switch op {
+	case token.GTR:
+		return m.runesAtLeast(rc.s, k+1)
+	case token.GEQ:
+		return m.runesAtLeast(rc.s, k)
+	case token.LSS:
+		return !m.runesAtLeast(rc.s, k)
+	case token.LEQ:
+		return !m.runesAtLeast(rc.s, k+1)
+	case token.EQL:
+		return m.runesAtLeast(rc.s, k) && !m.runesAtLeast(rc.s, k+1)
+	case token.NEQ:
+		return !(m.runesAtLeast(rc.s, k) && !m.runesAtLeast(rc.s, k+1))
+	}
+	panic(cut{"unsupported operator on rune count"})
+}
 
 var (
 	reAscii = reRange(0x00, 0x7f)
@@ -39,6 +93,14 @@ func (m *machine) firstChar(s *Term, maxBytes int) (*Term, *Term) {
 }
 
 func (m *machine) firstChar1(s *Term, maxBytes int) (*Term, *Term) {
+	// a constant leading part decides the first character syntactically
+	if ps := concatParts(s); len(ps) > 0 && ps[0].Op == "cs" && ps[0].S != "" {
+		r, n := utf8.DecodeRuneInString(ps[0].S)
+		if r != utf8.RuneError || n > 1 {
+			rest := mkConcat(append([]*Term{mkStr(ps[0].S[n:])}, ps[1:]...)...)
+			return mkStr(ps[0].S[:n]), rest
+		}
+	}
 	classes := []*Term{reAscii, reTwo, reThree, reFour}
 	for n := 1; n <= maxBytes; n++ {
 		c := m.freshStr(fmt.Sprintf("ch%d", n))
@@ -52,6 +114,7 @@ func (m *machine) firstChar1(s *Term, maxBytes int) (*Term, *Term) {
 		if m.branch(cond) {
 			m.assume(mkStrEq(s, mkConcat(c, rest)))
 			m.assume(mkIntEq(mkLen(c), mkInt(int64(n))))
+			m.noteFold(mkConcat(c, rest), s)
 			return c, rest
 		}
 	}
